@@ -325,6 +325,7 @@ def server_ctx_cases(ctx, rep, n):
 # ------------------------------------------------------------------ entry points
 def run(ctx):
     rep = Report(RULE)
+    check_block_cases(ctx, rep, [(c['block'], c['ops'], tuple(c['window'])) for c in ctx.corpus() if c['kind'] == 'block'])
     nsweep = block_sweep(ctx, rep)
     rep.notes.append('boundary sweep: %d cases, every (address,count) in the window of 17 small blocks' % nsweep)
     rep.exhaustive = False
